@@ -14,12 +14,15 @@ ENGINES = [
      "kind_free_text": "controlled scheduler + access-level conflict detection over compiler-instrumented thread bodies; exhaustive operation-level interleavings, preemption-bounded DFS"},
 ]
 
+READY = set(open(os.path.join(VERIF, "lib", "ready.txt")).read().split())
+
+
 def main():
     allp = [json.loads(l) for l in open(os.path.join(VERIF, "properties.jsonl"))]
     checks, na = [], []
     for p in allp:
         pid = p["id"]
-        if pid in PROPS and pid in TEXT:
+        if pid in PROPS and pid in TEXT and pid in READY:
             t = TEXT[pid]
             for e in ENGINES:
                 if e["name"] == t["engine"]:
